@@ -481,24 +481,67 @@ pub fn partition_id_sequence<'a>() -> impl Parser<FrameStream<'a>, Output = (Par
 
 // <s1>=<v1>
 pub fn stream_id_version<'a>() -> impl Parser<FrameStream<'a>, Output = (StreamId, u64)> + 'a {
-    string()
-        .and_then(|s| {
-            let (stream_id, version) = s
-                .split_once('=')
-                .ok_or_else(|| easy::Error::message_format("missing `=` in stream id version"))?;
-            let stream_id = StreamId::new(stream_id).map_err(easy::Error::message_format)?;
-            let version: u64 = version
-                .parse()
-                .map_err(|_| easy::Error::message_format("invalid stream id version number"))?;
-            Ok::<_, easy::Error<_, _>>((stream_id, version))
-        })
-        .expected("stream id version value")
+    // A frame without `=` is not a map entry: fail without consuming it, so that a list of
+    // entries ends in front of the next clause (`... FROM MAP a=1 b=2 WINDOW 50`).
+    satisfy_map(|frame: &'a BytesFrame| match frame {
+        BytesFrame::BlobString { data, .. }
+        | BytesFrame::SimpleString { data, .. }
+        | BytesFrame::VerbatimString {
+            data,
+            format: VerbatimStringFormat::Text,
+            ..
+        } => str::from_utf8(data).ok().and_then(|s| s.split_once('=')),
+        _ => None,
+    })
+    .and_then(|(stream_id, version)| {
+        let stream_id = StreamId::new(stream_id).map_err(easy::Error::message_format)?;
+        let version: u64 = version
+            .parse()
+            .map_err(|_| easy::Error::message_format("invalid stream id version number"))?;
+        Ok::<_, easy::Error<_, _>>((stream_id, version))
+    })
+    .expected("stream id version value")
+}
+
+/// Clause keywords of the command grammar. They introduce optional clauses after positional
+/// arguments, so a positional stream id must not be one of them (in any case).
+pub const RESERVED_KEYWORDS: &[&str] = &[
+    "PARTITION_KEY",
+    "FROM",
+    "WINDOW",
+    "LATEST",
+    "MAP",
+    "DEFAULT",
+    "EVENT_ID",
+    "EXPECTED_VERSION",
+    "TIMESTAMP",
+    "PAYLOAD",
+    "METADATA",
+    "COUNT",
+];
+
+/// Whether `s` would be accepted by `keyword(kw)` for one of the clause keywords.
+pub fn is_reserved_keyword(s: &str) -> bool {
+    RESERVED_KEYWORDS.contains(&s.to_uppercase().as_str())
 }
 
 pub fn stream_id<'a>() -> impl Parser<FrameStream<'a>, Output = StreamId> + 'a {
-    string()
-        .and_then(|s| StreamId::new(s).map_err(easy::Error::message_format))
-        .expected("stream id")
+    // A clause keyword is never a stream id: fail without consuming it, so that a list of stream
+    // ids ends in front of `FROM` / `WINDOW` / ... instead of swallowing the clause.
+    satisfy_map(|frame: &'a BytesFrame| match frame {
+        BytesFrame::BlobString { data, .. }
+        | BytesFrame::SimpleString { data, .. }
+        | BytesFrame::VerbatimString {
+            data,
+            format: VerbatimStringFormat::Text,
+            ..
+        } => str::from_utf8(data)
+            .ok()
+            .filter(|s| !is_reserved_keyword(s)),
+        _ => None,
+    })
+    .and_then(|s| StreamId::new(s).map_err(easy::Error::message_format))
+    .expected("stream id")
 }
 
 #[cfg(test)]
@@ -529,6 +572,24 @@ mod tests {
         let stream = frame_stream(&frames);
         let (parsed, _) = keyword("PARTITION_KEY").parse(stream).unwrap();
         assert_eq!(parsed, "PARTITION_KEY");
+    }
+
+    #[test]
+    fn test_stream_ids_end_at_clause_keyword() {
+        let frames: Vec<BytesFrame> = ["user-1", "user-2", "from", "50"]
+            .iter()
+            .map(|s| BytesFrame::BlobString {
+                data: s.as_bytes().to_vec().into(),
+                attributes: None,
+            })
+            .collect();
+
+        let stream = frame_stream(&frames);
+        let (ids, rest) = combine::many1::<Vec<_>, _, _>(stream_id())
+            .parse(stream)
+            .unwrap();
+        assert_eq!(ids.len(), 2);
+        assert_eq!(rest.frames.len(), 2);
     }
 
     #[test]
